@@ -341,7 +341,75 @@ def r10_4(ctx):
                        create, fld, destroy))
 
 
+def _factors(f, e):
+    """multiset of factors of a product, cast-free, with the rule-set root
+    (`scanner->rules`, `new_scanner->rules`, `rules`, `context->rules`)
+    normalised"""
+    import re
+    from .C14 import canon
+    e = cu.strip_casts(f, e)
+    if e is not None and e['k'] == 'bin' and e['op'] == '*':
+        return _factors(f, f.kid(e, 0)) + _factors(f, f.kid(e, 1))
+    s_ = canon(f, e)
+    s_ = re.sub(r'\b(\w+->)?rules->', 'RULES.', s_)
+    return [s_]
+
+
+def r10_5(ctx):
+    """what is allocated per rule set is reset over its whole extent"""
+    prog = ctx.prog
+    extents = {}
+    for f in prog.fns():
+        if not f.file.startswith('libyara/scanner.c') and not ctx.fixture:
+            continue
+        for n in f.all_nodes():
+            if n['k'] != 'bin' or n['op'] != '=':
+                continue
+            l = cu.strip_casts(f, f.kid(n, 0))
+            r = cu.strip_casts(f, f.kid(n, 1))
+            if l is None or r is None or l['k'] != 'member' or r['k'] != 'call':
+                continue
+            if l.get('rec') not in ('YR_SCAN_CONTEXT', 'YR_SCANNER'):
+                continue
+            if r.get('callee') == 'yr_calloc':
+                a = f.call_args(r)
+                ext = sorted(_factors(f, a[0]) + _factors(f, a[1]))
+            elif r.get('callee') == 'yr_malloc':
+                ext = sorted(_factors(f, f.call_args(r)[0]))
+            else:
+                continue
+            extents[l['fld']] = (ext, f, n)
+    ctx.require(len(extents) >= 5 or ctx.fixture, 'only %d sized scanner allocations found' % len(extents))
+    n_sites = 0
+    for f in prog.fns():
+        if not f.file.startswith('libyara/') and not ctx.fixture:
+            continue
+        k = {}
+        for c in f.calls():
+            if c.get('callee') != 'memset':
+                continue
+            a = f.call_args(c)
+            d = cu.strip_casts(f, a[0])
+            if d is None or d['k'] != 'member' or d.get('rec') not in ('YR_SCAN_CONTEXT', 'YR_SCANNER') \
+                    or d['fld'] not in extents:
+                continue
+            n_sites += 1
+            got = sorted(_factors(f, a[2]))
+            want, af, an = extents[d['fld']]
+            idx = k.get(d['fld'], 0)
+            k[d['fld']] = idx + 1
+            ok = got == want
+            ctx.ob('R10.5', '%s:%s#%d:reset-covers-allocation' % (f.name, d['fld'], idx), ok, f.loc(c),
+                   'cleared over %s = the allocated extent' % ' * '.join(got) if ok else
+                   '%s is allocated with %s (at %s) but cleared over %s: part of it keeps the state of '
+                   'the previous scan (or the clear runs past the allocation)' % (
+                       d['fld'], ' * '.join(want), af.loc(an), ' * '.join(got)))
+    ctx.count('sized_resets', n_sites)
+
+
 FIXTURES = {
+    'R10.5': {'src': 'C10/reuse.c', 'run': r10_5, 'expect': 'clean_matches:disabled#0:reset-covers-allocation',
+              'expect_ok': 'clean_matches:flags_bits#0:reset-covers-allocation'},
     'R10.1': {'src': 'C10/reuse.c', 'run': r10_1, 'expect': 'hits:survives',
               'expect_ok': 'entry_point:reset-at-fresh'},
     'R10.2': {'src': 'C10/exec.c', 'run': r10_2, 'expect': 'modules-unloaded-on-every-exit'},
@@ -357,3 +425,5 @@ def run(ctx):
     ctx.floor('R10.3', 4)
     r10_4(ctx)
     ctx.floor('R10.4', 6)
+    r10_5(ctx)
+    ctx.floor('R10.5', 6)
